@@ -23,8 +23,13 @@ def tasks(tier):
             cfg = opt_cfg(spl, D)
             base = '%s,DIM=%d' % (spl.replace('SplineND', ''), D)
             T.append(Task('SplineOptimizer', 'calculateIntegralCost', None, cfg, label=base, setup=optimizer_default_maps, options=C08.quad_options()))
-            T.append(Task('SplineOptimizer', 'evaluate', 7, cfg, label=base + ',own workspace', setup=optimizer_user_maps, options=C08.eval_options(),
-                          pins={'p_ws_null': False}))
+            t = Task('SplineOptimizer', 'evaluate', 7, cfg, label=base + ',own workspace', setup=optimizer_user_maps, options=C08.eval_options(),
+                     pins={'p_ws_null': False})
+            if tier == 'quick':
+                # quick tier: the gradient-side obligations of evaluate (assembly, write-back, what the maps are handed); its value-side and
+                # decode obligations are C08's; the thorough tier discharges the whole harness for every order
+                t.obligation_filter = r'gradient|backward|loop2|loop3|spatial_|boundary_block|duration_variables|propagat|/call\(.*(propagateGrad|getEnergyGrad)'
+            T.append(t)
     return T
 
 
